@@ -152,7 +152,11 @@ def h_delete(eng, fmt, mode, focus="tables"):
         dirs = [(".cfi_startproc", [], NULL), (".cfi_personality", [0x9B], S), (".cfi_lsda", [0x1B], S),
                 (".cfi_lsda", [0x1B], T)]
     cfi[gtirb.Offset(code, 0)] = dirs
-    cfi[gtirb.Offset(code, 32)] = [(".cfi_endproc", [], NULL)]
+    # a second procedure that shares the personality routine (and names the bystander's LSDA)
+    dirs2 = [(".cfi_endproc", [], NULL), (".cfi_startproc", [], NULL), (".cfi_personality", [0x9B], S if in_cfi else T),
+             (".cfi_lsda", [0x1B], T)]
+    cfi[gtirb.Offset(code, 32)] = dirs2
+    cfi[gtirb.Offset(code, 48)] = [(".cfi_endproc", [], NULL)]
     # ---- expressions ----------------------------------------------------------------
     bystander = gtirb.SymAddrConst(4, T)
     bi.symbolic_expressions[1] = bystander
@@ -170,6 +174,14 @@ def h_delete(eng, fmt, mode, focus="tables"):
     if mode != "single" and not versions_focus and eng.choose("S2_used", [False, True]):
         bi.symbolic_expressions[40] = gtirb.SymAddrAddr(1, 0, T, S2)
         keys_using[S2].append(40)
+    # the same uses once more in another byte interval, at the same interval-relative offsets
+    bi2 = gtirb.ByteInterval(contents=b"\x00" * 64, address=0x9000, section=bi.section)
+    gtirb.DataBlock(offset=0, size=64, byte_interval=bi2)
+    for k_, e_ in list(bi.symbolic_expressions.items()):
+        if k_ != 1:
+            bi2.symbolic_expressions[k_] = type(e_)(*([e_.offset, e_.symbol] if isinstance(e_, gtirb.SymAddrConst)
+                                                      else [e_.scale, e_.offset, e_.symbol1, e_.symbol2]))
+    exprs2_before = dict(bi2.symbolic_expressions)
     snapshot_T = _snapshot_for(m, T, X)
     exprs_before = dict(bi.symbolic_expressions)
     # ---- the request -----------------------------------------------------------------
@@ -204,6 +216,12 @@ def h_delete(eng, fmt, mode, focus="tables"):
         sorted(set(exprs_before) - set(bi.symbolic_expressions)), sorted(gone)))
     for k in want_keys:
         eng.check(bi.symbolic_expressions[k] is exprs_before[k], "an unrelated symbolic expression was replaced")
+    want2_keys = {k for k in exprs2_before if k not in gone}
+    eng.check(set(bi2.symbolic_expressions) == want2_keys, "second byte interval: expressions removed %s, expected exactly %s" % (
+        sorted(set(exprs2_before) - set(bi2.symbolic_expressions)), sorted(gone & set(exprs2_before))))
+    for s_ in deleted:
+        for k, e in bi2.symbolic_expressions.items():
+            eng.check(all(x is not s_ for x in e.symbols), "an expression of the second byte interval still uses deleted symbol %s" % s_.name)
     # CFI directives that named a deleted symbol carry the null UUID (and DW_EH_PE_omit)
     got_dirs = cfi[gtirb.Offset(code, 0)]
     want_dirs = []
@@ -212,6 +230,12 @@ def h_delete(eng, fmt, mode, focus="tables"):
             want_dirs.append((name, [0xFF] if name in (".cfi_personality", ".cfi_lsda") else args, NULL))
         else:
             want_dirs.append((name, args, ref))
+    got2 = cfi[gtirb.Offset(code, 32)]
+    want2 = [(n_, [0xFF] if (r_ in deleted and n_ in (".cfi_personality", ".cfi_lsda")) else a_, NULL if r_ in deleted else r_)
+             for (n_, a_, r_) in dirs2]
+    eng.check(len(got2) == len(want2) and all(g[0] == w[0] and list(g[1]) == list(w[1]) and (g[2] is w[2] or g[2] == w[2])
+                                              for g, w in zip(got2, want2)),
+              "CFI directives of the second procedure after the deletion: %r" % (got2,))
     eng.check(len(got_dirs) == len(want_dirs) and all(
         g[0] == w[0] and list(g[1]) == list(w[1]) and (g[2] is w[2] or g[2] == w[2]) for g, w in zip(got_dirs, want_dirs)),
         "CFI directives after deletion: %r, expected %r" % (got_dirs, want_dirs))
